@@ -184,6 +184,10 @@ class Renderer:
             return self.lit(e)
         if k == 'raw':
             return e[1]
+        if k == 'arr':    # array literal {1,2;3,4}
+            return '{%s}' % ';'.join(','.join(
+                self.lit(['n', v]) if not isinstance(v, str) else
+                self.lit(['s', v]) for v in row) for row in e[1])
         if k == 'r':
             return self.ref(e, host)
         if k == 'nm':
